@@ -1,11 +1,46 @@
-"""C07 — rules not implemented yet (fail closed)."""
-EXPLANATION = "not implemented"
-NOT_DECIDED = "everything"
+"""C07 — comparisons and logical operators compare physical quantities."""
+from __future__ import annotations
+
+from ..specs import operators as optab
+from . import coretypes as ct
+from .units_rules import check_array_to
+
+EXPLANATION = (
+    "Static rules on core/array.py: (R1) the six comparison and three binary logical dunders resolve to "
+    "_binary_op(<numpy comparison/logical ufunc>, self, other) with strict conversion, ~a to np.logical_not(a); (R2) on every "
+    "strict path of _binary_op the right operand is converted to the unit of the left one before the ufunc is called, a "
+    "failed conversion is not caught, and a conversion to an equal unit is the identity (no float round trip of integer "
+    "values); (R3) boolean results are never given a unit (dtype predicate evaluated over a model of numpy dtypes) and "
+    "no comparison ufunc is in the unit-transforming set.")
+NOT_DECIDED = "the verdict of each element-wise comparison as a number (numpy after pint); broadcasting shapes"
+TRUSTED = ("CPython ast", "numpy/pint behave as documented", "S4 operator table", "numpy dtype model")
 
 
-def not_implemented(run, tree):
-    run.rule("C07.R0", "stub")
-    run.unresolved("stub", "", "rules for C07 are not implemented yet")
+def r1_table(run, tree):
+    run.rule("C07.R1", "comparison/logical operator table", "S4 table", "Python data model", floor=10)
+    ct.check_operator_table(run, tree, optab.COMPARE)
+    ct.check_operator_table(run, tree, optab.LOGICAL)
+    ct.check_composites(run, tree, ["__invert__"])
 
 
-RULES = [not_implemented]
+def r2_strict_conversion(run, tree):
+    run.rule("C07.R2", "strict conversion dominates the comparison ufunc; equal-unit conversion is the identity",
+             "path enumeration + D1", "", floor=4)
+    ct.analyse_binary_op(run, tree, "C07.R2", want_strict=(True,))
+    check_array_to(run, tree)
+
+
+def r3_bool_dimensionless(run, tree):
+    run.rule("C07.R3", "boolean results are dimensionless", "D7 fincase over the dtype model", "numpy dtype model", floor=2)
+    ct.check_dtype_gate(run, tree, want_numeric=False, want_bool=True)
+    f = ct.analyse_wrap_numpy(tree)
+    if f.apply_tuple is None:
+        run.unresolved(ct.ARRAY + "._wrap_numpy::APPLY_OP_TO_UNIT", f.fi.where(), "unit-transforming set not found")
+        return
+    bad = [n for n in optab.PREDICATES if n in f.apply_tuple]
+    run.ob(ct.ARRAY + "::APPLY_OP_TO_UNIT[no predicates]", not bad, f.fi.where(),
+           "comparison/logical ufuncs in the unit-transforming set: %s" % (bad or "none"),
+           "np.less applied to unit quantities")
+
+
+RULES = [r1_table, r2_strict_conversion, r3_bool_dimensionless]
